@@ -176,7 +176,7 @@ def gen_conversation(rng, kinds, tag):
         c["items"] = gen_items(rng)
     elif kind == "consume_eof":
         c["items"] = gen_items(rng)
-        c["end"] = rng.choice(["close", "drop"])
+        c["end"] = rng.choice(["close", "drop", "drop_cb"])
     elif kind == "callback_raises":
         c["items"] = list(range(rng.randint(1, 4)))
         c["bad"] = rng.choice(c["items"])
@@ -411,6 +411,10 @@ def run_program(prog, chooser, seed, line_budget=0, cut_w2i=None, remote_backend
                     o["waitclose_after"] = "returns"
                 except Exception as e:  # noqa
                     o["waitclose_after"] = type(e).__name__
+            elif c["end"] == "drop_cb":
+                # the conversation is ended by dropping a channel that has a receiver callback (CHANNEL_LAST_MESSAGE)
+                ch.setcallback(lambda x: None)
+                del ch
             else:
                 del ch
         elif k == "callback_raises":
@@ -670,7 +674,7 @@ def check_conversation(ck, prefix, c, o, out, ex, lossy=False):
         notes = [n for n in out["worker_notes"] if n[0] == c["tag"] and len(n) == 3 and n[1] != "cb"]
         if len(notes) != 1 or list(map(canon_item, notes[0][1])) != list(map(canon_item, c["items"])):
             ck.fail(prefix + f"items-before-{c['end']}-not-received-then-EOF", ex)
-        elif tuple(notes[0][2]) != (True, "OSError", "returns"):
+        elif tuple(notes[0][2]) != ((False, "accepted", "returns") if c["end"] == "drop_cb" else (True, "OSError", "returns")):
             # the peer has observed the close (EOFError): isclosed is true, send raises OSError, waitclose returns at once
             ck.fail(prefix + "peer-state-after-observed-close-wrong:%s" % (tuple(notes[0][2]),), ex)
         if c["end"] == "close" and (o.get("isclosed") is not True or o.get("send_after_close") != "OSError" or o.get("waitclose_after") != "returns"):
